@@ -82,19 +82,31 @@ Fixpoint split_once_str (p s : str) : option (str * str) :=
       end
   end.
 
-(* fn super_depth(import): number of "super." occurrences and the text after the last one.
-   None = fuel exhausted (cannot happen with fuel = length + 1: every round drops >= 6 bytes). *)
-Fixpoint super_depth_go (fuel : nat) (s : str) (cnt : nat) (suffix : option str)
+(* fn super_depth(import): only whole leading `super.` prefixes count; returns their number and, when
+   there is at least one, the rest of the path.
+   None = fuel exhausted (cannot happen with fuel = length + 1: every round drops 6 bytes). *)
+Fixpoint super_depth_go (fuel : nat) (s : str) (cnt : nat) : option (nat * option str) :=
+  match fuel with
+  | O => None
+  | S f =>
+      match strip_prefix s_super_dot s with
+      | Some post => super_depth_go f post (S cnt)
+      | None => Some (cnt, match cnt with O => None | S _ => Some s end)
+      end
+  end.
+Definition super_depth (s : str) := super_depth_go (S (length s)) s O.
+(* super_depth before the repair of N-C08-1: every occurrence of the substring "super." counted *)
+Fixpoint super_depth_legacy_go (fuel : nat) (s : str) (cnt : nat) (suffix : option str)
   : option (nat * option str) :=
   match fuel with
   | O => None
   | S f =>
       match split_once_str s_super_dot s with
-      | Some (_, post) => super_depth_go f post (S cnt) (Some post)
+      | Some (_, post) => super_depth_legacy_go f post (S cnt) (Some post)
       | None => Some (cnt, suffix)
       end
   end.
-Definition super_depth (s : str) := super_depth_go (S (length s)) s O None.
+Definition super_depth_legacy (s : str) := super_depth_legacy_go (S (length s)) s O None.
 
 Definition ascii_alnum (b : N) : bool :=
   ((48 <=? b) && (b <=? 57)) || ((65 <=? b) && (b <=? 90)) || ((97 <=? b) && (b <=? 122)).
@@ -486,15 +498,14 @@ Definition push_sub (i : N) : M unit := fun s => ROk tt (set_index (cs_fn s) (i 
 Definition pop_sub : M unit := fun s => ROk tt (set_index (cs_fn s) (tl (cs_idx s)) s).
 Definition with_sub (i : N) (m : M unit) : M unit := push_sub i ;; m ;; pop_sub.
 
-(* Handle::from_bytes with its debug_assert!(hash != 0) *)
+(* Handle::from_bytes (its debug_assert!(hash != 0) went with 3f22e7c: the hash is made non-zero) *)
 Definition handle_from_bytes_m (bs : list N) : M N :=
-  fun s => let h := handle_of_bytes bs in
-           if (h =? 0) && cs_debug s then RPanic else ROk h s.
+  fun s => ROk (handle_of_bytes bs) s.
 (* Compiler::card_handle = current_function_handle + current_index.sub_handle() *)
 Definition index_handle : M N :=
   do s <- get ;;
   do sub <- handle_from_bytes_m (flat_map (fun i => le_bytes 4 (i mod two32)) (rev (cs_idx s))) ;;
-  ret (N.lxor (cs_fh s) sub).
+  ret (handle_add (cs_fh s) sub).
 (* labels.0.insert(handle, Label::new(u32::try_from(bytecode.len()).expect(..))).unwrap():
    function and closure labels (overwrites; key 0 = Err(InvalidHandle) -> unwrap panics) *)
 Definition label_insert_here (h : N) : M unit :=
@@ -528,14 +539,15 @@ Definition scope_begin : M unit :=
   fun s => ROk tt (set_scopes (cs_locals s) (cs_upvalues s) (map_hd (fun d => (d + 1)%Z) (cs_depth s)) s).
 
 (* pops the locals deeper than [d] from the end of [ls] (given reversed); returns the survivors
-   (reversed) and the instructions to emit *)
+   (reversed) and the instructions to emit.  d723a2c: CloseUpvalue carries `locals.len() as u32`
+   read AFTER the variable was popped, i.e. the slot index of the variable in its frame. *)
 Fixpoint pop_locals (rls : list local) (d : Z) : list local * list instr :=
   match rls with
   | [] => ([], [])
   | l :: r =>
       if (d <? l_depth l)%Z then
         let '(r', is) := pop_locals r d in
-        (r', (if l_captured l then ICloseUpvalue else IPop) :: is)
+        (r', (if l_captured l then ICloseUpvalue (N.of_nat (length r)) else IPop) :: is)
       else (rls, [])
   end.
 (* each with `trace.insert(bytecode.len(), trace.clone())`, trace = self.trace() of scope_end's caller *)
@@ -585,13 +597,20 @@ Definition mark_captured (ls : list local) (i : nat) : list local :=
   | None => ls
   end.
 
+Fixpoint rfind_index {A} (p : A -> bool) (l : list A) (i : nat) (acc : option nat) : option nat :=
+  match l with
+  | [] => acc
+  | x :: r => rfind_index p r (S i) (if p x then Some i else acc)
+  end.
+
 (* resolve_upvalue(name, function_id) on the stacks [locs] = locals[function_id], locals[function_id-1], ...
-   and [ups] likewise.  None = Err(TooManyUpvalues). *)
+   and [ups] likewise.  None = Err(TooManyUpvalues).  The enclosing function's locals are searched
+   last to first (53336fc), like resolve_var. *)
 Fixpoint resolve_upvalue (name : str) (locs : list (list local)) (ups : list (list upvalue))
   : option (variable * list (list local) * list (list upvalue)) :=
   match locs, ups with
   | cur :: ((parent :: rest) as below), ucur :: ubelow =>
-      match find_index (fun l => str_eqb (l_name l) name) parent 0 with
+      match rfind_index (fun l => str_eqb (l_name l) name) parent 0 None with   (* 53336fc: .rev() *)
       | Some i =>
           match add_upvalue ucur (N.of_nat i mod 256) true with
           | Some (k, ucur') => Some (VUpvalue k, cur :: mark_captured parent i :: rest, ucur' :: ubelow)
@@ -609,12 +628,6 @@ Fixpoint resolve_upvalue (name : str) (locs : list (list local)) (ups : list (li
           end
       end
   | _, _ => Some (VGlobal, locs, ups)            (* function_id == 0 *)
-  end.
-
-Fixpoint rfind_index {A} (p : A -> bool) (l : list A) (i : nat) (acc : option nat) : option nat :=
-  match l with
-  | [] => acc
-  | x :: r => rfind_index p r (S i) (if p x then Some i else acc)
   end.
 
 Definition resolve_var (name : str) : M variable :=
@@ -710,7 +723,8 @@ Definition resolve_function (fname : str) : M fmeta :=
                     match take_ns ns cnt (cs_debug s) with
                     | None => error ESuperLimitReached
                     | Some ns' =>
-                        ret (sm_find (ns_prefix ns' ++ alias ++ c_dot :: match sx with Some x => x | None => suffix end) jt)
+                        (* [s.unwrap_or(alias), ".", suffix] *)
+                        ret (sm_find (ns_prefix ns' ++ match sx with Some x => x | None => alias end ++ c_dot :: suffix) jt)
                     end
                 end
             end
@@ -913,7 +927,7 @@ Fixpoint process_card (c : card) {struct c} : M unit :=
       push_instr (IGoto placeholder) ;;
       compile_begin ;;
       do h <- index_handle ;;
-      let fh := N.lxor h (handle_from_u64 closure_mask) in
+      let fh := handle_add h (handle_from_u64 closure_mask) in
       label_insert_here fh ;;
       scope_begin ;;
       add_locals (rev args) ;;
